@@ -486,8 +486,9 @@ def shrink(line, fails):   # noqa: F811
             if len(r["faults"]) > 1:
                 cands.append(dict(r, faults={q: v for q, v in r["faults"].items() if q != p}))
         top = max(r["faults"]) if r["faults"] else -1
-        for k2 in (top + 1, top + 2, r["k"] // 2):
-            if top < k2 < r["k"]:
+        # keep enough items behind the last fault for the other workers to have something to start
+        for k2 in (top + 2 + 2 * r["n"], r["k"] // 2):
+            if top + 1 + 2 * r["n"] < k2 < r["k"]:
                 cands.append(dict(r, k=k2))
         if r["n"] > 1:
             cands.append(dict(r, n=r["n"] - 1))
@@ -495,7 +496,8 @@ def shrink(line, fails):   # noqa: F811
             cands.append(dict(r, custom=0))
         for cnd in cands:
             budget -= 1
-            if fails(build(cnd)):
+            line2 = build(cnd)
+            if fails(line2) and fails(line2):     # twice: the observation depends on the schedule
                 r, changed = cnd, True
                 break
             if budget <= 0:
@@ -507,7 +509,11 @@ _gen_cce = gen
 
 
 def gen(rng, tier, open_keys):   # noqa: F811
-    return _gen_cce(rng, tier, open_keys) + gen_runs(rng, tier, open_keys)
+    seen, out = set(corpus()), []
+    for l in _gen_cce(rng, tier, open_keys) + gen_runs(rng, tier, open_keys):
+        if l not in seen:
+            seen.add(l); out.append(l)
+    return out
 
 
 _corpus_cce = corpus
@@ -535,17 +541,17 @@ def main(tier, seed, replay):
     to the observation so that the generic runner's equality test means "accepted by the model"."""
     from . import diffcheck
     orig = C.run_lines
-    last_obs = {}
+    last = {"lines": None, "obs": None}
 
     def run_lines(binary, args, lines, timeout=600, env=None):
         if binary != C.driver_bin():
             res = orig(binary, args, lines, timeout=timeout, env=env)
-            for l, o in zip(lines, res[0]):
-                last_obs[l] = o
+            last["lines"], last["obs"] = list(lines), list(res[0])
             return res
+        # the driver is always run on the case list the harness has just been run on
+        obs = last["obs"] if last["lines"] == list(lines) else [None] * len(lines)
         lines2 = []
-        for l in lines:
-            o = last_obs.get(l)
+        for l, o in zip(lines, obs):
             if l.startswith("(run") and o is not None and o.startswith("(obs"):
                 lines2.append(f"(judge {l} {o})")
             elif l.startswith("(run"):
@@ -553,8 +559,8 @@ def main(tier, seed, replay):
             else:
                 lines2.append(l)
         out, rc, err = orig(binary, args, lines2, timeout=timeout, env=env)
-        out = [last_obs.get(l) if (m == "ok" or (m == "bad-op" and l2 == "(nojudge)")) else m
-               for l, l2, m in zip(lines, lines2, out)]
+        out = [o if (m == "ok" or (m == "bad-op" and l2 == "(nojudge)")) else m
+               for o, l2, m in zip(obs, lines2, out)]
         return out, rc, err
     C.run_lines = run_lines
     try:
